@@ -88,3 +88,86 @@ Proof.
       eexists _, _, _. split; [reflexivity|]. split; [reflexivity|].
       unfold pn_input. destruct b, n; try discriminate; cbn; auto.
 Qed.
+
+(* ------------------------------------------------------------------------------------------ *)
+(** * to_cnf *)
+
+Lemma cf_core_or : forall l r, cf_core (COr false l r) = k_or (cf_core l) (cf_core r).
+Proof. reflexivity. Qed.
+Lemma cf_core_and : forall l r, cf_core (CAnd false l r) = k_and (cf_core l) (cf_core r).
+Proof. reflexivity. Qed.
+Lemma dest_or_k_or : forall a b, dest_or (k_or a b) = Some (a, b).
+Proof. reflexivity. Qed.
+Lemma dest_and_k_and : forall a b, dest_and (k_and a b) = Some (a, b).
+Proof. reflexivity. Qed.
+Lemma s_trans_refl : forall p q r, s_imp_transitivity (KImp p q) (KImp q r) = Some (KImp p r).
+Proof. intros. cbn [s_imp_transitivity]. rewrite core_eqb_refl. reflexivity. Qed.
+
+Lemma to_cnf_p_conc : forall fuel t t',
+  to_cnf fuel t = Ok t' -> is_nnf t = true ->
+  to_cnf_p fuel t = Ok (t', KImp (cf_core t) (cf_core t'), KImp (cf_core t') (cf_core t)).
+Proof.
+  induction fuel as [|fuel IH]; intros t t' H Hn; [discriminate|].
+  destruct t as [n|n i|n l r|n l r]; cbn [to_cnf] in H; try discriminate.
+  - inversion H; subst. reflexivity.
+  - (* COr *)
+    cbn [is_nnf] in Hn. apply andb_prop in Hn as [Hn Hr]. apply andb_prop in Hn as [Hn0 Hl].
+    destruct n; [discriminate|].
+    destruct (to_cnf fuel l) as [l'| |] eqn:El; cbn [rbind] in H; try discriminate.
+    destruct (to_cnf fuel r) as [r'| |] eqn:Er; cbn [rbind] in H; try discriminate.
+    destruct (to_cnf_sound (fun _ => false) _ _ _ El Hl) as [_ Cl].
+    destruct (to_cnf_sound (fun _ => false) _ _ _ Er Hr) as [_ Cr].
+    cbn [to_cnf_p]. rewrite (IH _ _ El Hl), (IH _ _ Er Hr). cbn [rbind s_imim_or of_option].
+    rewrite cf_core_or.
+    destruct l' as [nl|nl il|nl al bl|nl al bl]; [discriminate Cl| | |].
+    + destruct r' as [nr|nr ir|nr ar br|nr ar br]; [discriminate Cr| | |].
+      * inversion H; subst. rewrite cf_core_or. reflexivity.
+      * inversion H; subst. cbn [is_cnf] in Cr. apply andb_prop in Cr as [Cr _]. apply andb_prop in Cr as [Cr _].
+        destruct nr; [discriminate|]. rewrite cf_core_or. reflexivity.
+      * cbn [is_cnf] in Cr. apply andb_prop in Cr as [Cr Cbr]. apply andb_prop in Cr as [Cnr Car].
+        destruct nr; [discriminate|].
+        assert (Hnn : is_nnf (CAnd false (COr false (CVar nl il) ar) (COr false (CVar nl il) br)) = true).
+        { cbn. rewrite (cnf_is_nnf _ Car), (cnf_is_nnf _ Cbr). reflexivity. }
+        rewrite cf_core_and.
+        unfold s_m2_or_distr_l, s_m1_or_distr_l_rev. rewrite !dest_or_k_or. cbn [obind]. rewrite !dest_and_k_and.
+        cbn [obind of_option rbind].
+        rewrite (IH _ _ H Hnn). cbn [rbind]. rewrite !cf_core_and, !cf_core_or.
+        rewrite !s_trans_refl. reflexivity.
+    + destruct r' as [nr|nr ir|nr ar br|nr ar br]; [discriminate Cr| | |].
+      * inversion H; subst. cbn [is_cnf] in Cl. apply andb_prop in Cl as [Cl _]. apply andb_prop in Cl as [Cl _].
+        destruct nl; [discriminate|]. rewrite !cf_core_or. reflexivity.
+      * inversion H; subst. cbn [is_cnf] in Cl, Cr.
+        apply andb_prop in Cl as [Cl _]. apply andb_prop in Cl as [Cl _].
+        apply andb_prop in Cr as [Cr _]. apply andb_prop in Cr as [Cr _].
+        destruct nl; [discriminate|]. destruct nr; [discriminate|]. rewrite !cf_core_or. reflexivity.
+      * pose proof Cl as Cl'. cbn [is_cnf] in Cl'. apply andb_prop in Cl' as [Cl' _]. apply andb_prop in Cl' as [Cl' _].
+        destruct nl; [discriminate|].
+        cbn [is_cnf] in Cr. apply andb_prop in Cr as [Cr Cbr]. apply andb_prop in Cr as [Cnr Car].
+        destruct nr; [discriminate|].
+        assert (Hcl : is_nnf (COr false al bl) = true) by (apply cnf_is_nnf; exact Cl).
+        assert (Hnn : is_nnf (CAnd false (COr false (COr false al bl) ar) (COr false (COr false al bl) br)) = true).
+        { cbn in Hcl |- *. rewrite Hcl, (cnf_is_nnf _ Car), (cnf_is_nnf _ Cbr). reflexivity. }
+        rewrite cf_core_and.
+        unfold s_m2_or_distr_l, s_m1_or_distr_l_rev. rewrite !dest_or_k_or. cbn [obind]. rewrite !dest_and_k_and.
+        cbn [obind of_option rbind].
+        rewrite (IH _ _ H Hnn). cbn [rbind]. rewrite !cf_core_and. rewrite !(cf_core_or (COr false al bl)).
+        rewrite !s_trans_refl. reflexivity.
+    + (* l' is an And *)
+      cbn [is_cnf] in Cl. apply andb_prop in Cl as [Cl Cbl]. apply andb_prop in Cl as [Cnl Cal].
+      destruct nl; [discriminate|].
+      assert (Hnn : is_nnf (CAnd false (COr false al r') (COr false bl r')) = true).
+      { cbn. rewrite (cnf_is_nnf _ Cal), (cnf_is_nnf _ Cbl), (cnf_is_nnf _ Cr). reflexivity. }
+      rewrite cf_core_and.
+      unfold s_m2_or_distr_r, s_m1_or_distr_r_rev. rewrite !dest_or_k_or. cbn [obind]. rewrite !dest_and_k_and.
+      cbn [obind of_option rbind].
+      rewrite (IH _ _ H Hnn). cbn [rbind]. rewrite !cf_core_and, !cf_core_or.
+      rewrite !s_trans_refl. reflexivity.
+  - (* CAnd *)
+    cbn [is_nnf] in Hn. apply andb_prop in Hn as [Hn Hr]. apply andb_prop in Hn as [Hn0 Hl].
+    destruct n; [discriminate|].
+    destruct (to_cnf fuel l) as [l'| |] eqn:El; cbn [rbind] in H; try discriminate.
+    destruct (to_cnf fuel r) as [r'| |] eqn:Er; cbn [rbind] in H; try discriminate.
+    inversion H; subst.
+    cbn [to_cnf_p]. rewrite (IH _ _ El Hl), (IH _ _ Er Hr). cbn [rbind s_imim_and of_option].
+    rewrite !cf_core_and. reflexivity.
+Qed.
